@@ -387,7 +387,7 @@ func c04Encoder(c *Ctx, h *hpHuff) {
 			if k, ok := obj.(*types.Const); ok && ahs.Syntax() != nil && id.Pos() >= ahs.Syntax().Pos() && id.Pos() <= ahs.Syntax().End() {
 				if v, ok := IntOf(pk, id); ok {
 					vals[k.Name()] = v
-				} else if iv, ok := constInt_hpack(k); ok {
+				} else if iv, ok := constInt(k); ok {
 					vals[k.Name()] = iv
 				}
 			}
@@ -433,7 +433,7 @@ func c04Encoder(c *Ctx, h *hpHuff) {
 	c.Check(why == "", rule, "HuffmanEncodeLength returns (sum of code lengths + 7) / 8", hel.Pos(), "", why)
 }
 
-func constInt_hpack(k *types.Const) (int64, bool) {
+func constInt(k *types.Const) (int64, bool) {
 	return (&HxEval{}).Value(ssa.NewConst(k.Val(), k.Type()))
 }
 
